@@ -11,6 +11,8 @@ COMPOSITIONS = ["pipeline", "column_transformer", "feature_union", "grid_search"
 ANCHORS = ["DecisionTreeClassifier", "RandomForestRegressor", "KNeighborsClassifier", "SGDClassifier", "HistGradientBoostingClassifier",
            "TfidfTransformer", "SparseRandomProjection", "SimpleImputer", "LogisticRegression", "GaussianProcessRegressor", "OneHotEncoder",
            "GradientBoostingClassifier"]
+# fixed witnesses of recorded findings (C07-F2: PCA fitted on sparse input keeps components_ as a negatively strided view)
+PROBE_JOBS = [{"name": "PCA", "draw": 0, "data": "sparse", "fitted": True, "seed": 445}]
 DOCUMENTED_FAMILIES = {"np_ufunc", "scipy_special_ufunc", "np_scalar_type", "builtin_primitive", "builtin_container", "np_array", "np_masked",
                        "np_rng", "scipy_sparse", "sk_tree", "sk_loss", "sklearn_estimator_class"}
 
@@ -50,11 +52,28 @@ def make_jobs(R, names):
     return jobs
 
 
+def run_chunk(chunk):
+    """a worker that dies (segfault in compiled code fed a wrongly restored state, timeout) is an observation:
+    its jobs are re-run one per process and the one that dies is reported"""
+    if not chunk:
+        return []
+    try:
+        return impl("estimators", {"jobs": chunk})
+    except Exception:
+        out = []
+        for job in chunk:
+            try:
+                out += impl("estimators", {"jobs": [job]}, timeout=600)
+            except Exception as e:  # noqa
+                out.append({"job": job, "crash": str(e)[-400:]})
+        return out
+
+
 def run_jobs(jobs, nworkers):
     # cheap round-robin: heavy estimators are spread over the workers
     chunks = [jobs[i::nworkers] for i in range(nworkers)]
     with ThreadPoolExecutor(nworkers) as ex:
-        res = list(ex.map(lambda ch: impl("estimators", {"jobs": ch}) if ch else [], chunks))
+        res = list(ex.map(run_chunk, chunks))
     out = [None] * len(jobs)
     for w, rs in enumerate(res):
         for j, r in enumerate(rs):
@@ -71,6 +90,8 @@ def oracle(rec):
     out = []
     job = rec["job"]
     who = label(job)
+    if "crash" in rec:
+        return [({"kind": "crash", "estimator": who}, f"the worker process died while round-tripping / using {who}: {rec['crash'][-200:]}")]
     if "skipped" in rec or "harness_error" in rec:
         return out
     if rec.get("dump") != "ok":
@@ -85,7 +106,12 @@ def oracle(rec):
         out.append(({"kind": "state-differs", "estimator": who}, f"fitted attributes differ under abs: {rec['state_diffs'][:3]}"))
     for m, v in rec.get("methods", {}).items():
         if v.startswith("DIFF"):
-            out.append(({"kind": "output-differs", "estimator": who, "method": m}, f"{m} on held-out input is not bit-identical: {v[:200]}"))
+            if m in (rec.get("layout_only") or {}):
+                out.append(({"kind": "output-differs", "cause": "non-contiguous-array-attribute"},
+                            f"{who}.{m} on held-out input differs in the last bits; {rec['layout_only'][m]} is a strided view that np.save stores contiguous "
+                            f"(a copy.deepcopy of the original gives the loaded estimator's output bit for bit): {v[:160]}"))
+            else:
+                out.append(({"kind": "output-differs", "estimator": who, "method": m}, f"{m} on held-out input is not bit-identical: {v[:200]}"))
     for name, tag in (rec.get("gut_tags") or {}).items():
         if tag == "scipy_sparse":
             out.append(({"kind": "untrusted-by-default", "family": "scipy.sparse"},
@@ -117,7 +143,7 @@ def run(R, only=None):
         jobs = only
     else:
         names = impl("names", {})
-        jobs = make_jobs(R, names)
+        jobs = make_jobs(R, names) + [dict(j) for j in PROBE_JOBS]
     recs = run_jobs(jobs, 14 if len(jobs) > 14 else max(1, len(jobs)))
     skipped, needs, impure, hist = [], {}, [], {}
     nmeth = 0
@@ -125,6 +151,11 @@ def run(R, only=None):
         who = label(job)
         if r is None or "harness_error" in r:
             R.obligation_broken("harness exception in impl_estimators", json.dumps(r)[:800])
+            continue
+        if "crash" in r:
+            R.case({"job": job}, nontrivial=True)
+            for sig, what in oracle(r):
+                R.violation(sig, what, {"job": job, "observed": r})
             continue
         if "skipped" in r:
             skipped.append({"estimator": who, "draw": job.get("draw"), "data": job.get("data"), "reason": r["skipped"]})
